@@ -83,6 +83,11 @@ def load_one(lit: LineIterator) -> dict:
                 result["bonds"] = bonds
     if not molecule_found:
         raise LoadError("Molecule could not be read.", lit)
+    if nbonds > 0 and "bonds" not in result:
+        warn(
+            LoadWarning(f"The BOND section with {nbonds} bonds is missing; bonds are not set.", lit),
+            stacklevel=2,
+        )
     return result
 
 
